@@ -30,9 +30,11 @@ use std::sync::atomic::{AtomicBool, AtomicU64, AtomicUsize, Ordering};
 use std::time::{Duration, Instant};
 
 /// Slot sizes in rows of 64 bytes, class representatives first: 8 B (`rows = 0`),
-/// 64 B, 512 B | 576 B, 1 KiB | 1088 B, 4 KiB | 4160 B, 32 KiB + 64, 64 KiB + 64.
-const QUICK_ROWS: [usize; 6] = [9, 65, 1, 513, 17, 1025];
-const MORE_ROWS: [usize; 10] = [0, 8, 16, 64, 2, 128, 512, 33, 1024, 2049];
+/// 64 B, 512 B | 576 B, 1 KiB | 1088 B, 4 KiB | 4160 B, 32 KiB + 64, 64 KiB + 64,
+/// 256 KiB + 64 (every thread of a case has a 256 MiB stack).
+const QUICK_ROWS: [usize; 8] = [9, 65, 1, 513, 17, 1025, 0, 4097];
+const MORE_ROWS: [usize; 10] = [8, 16, 64, 2, 128, 512, 33, 1024, 2049, 8193];
+const STACK: usize = 256 << 20;
 
 pub fn rows_of(c: &Case) -> usize {
     let i = c.index as usize;
@@ -224,6 +226,18 @@ pub const ROLES: [&str; 4] = ["local", "arg", "ret", "recursive"];
 type F2 = TypedFunc<NoCtx, fn(u64, u64) -> u64>;
 
 pub fn frame_slots(c: &Case, rep: &mut Report) {
+    // big frames, recursion: never depend on the default stack size
+    std::thread::scope(|s| {
+        std::thread::Builder::new()
+            .stack_size(STACK)
+            .spawn_scoped(s, || frame_slots_inner(c, rep))
+            .expect("spawn")
+            .join()
+            .expect("frame-slots thread");
+    });
+}
+
+fn frame_slots_inner(c: &Case, rep: &mut Report) {
     let mut p = c.prng(5);
     let rows = rows_of(c);
     let bytes = cells(rows) * 8;
@@ -311,7 +325,7 @@ pub fn frame_slots(c: &Case, rep: &mut Report) {
                     let (bad, start, xs) = (&bad, &start, &xs);
                     // even threads share the handle, odd threads own a clone
                     let own = if tid % 2 == 1 { Some(f.clone()) } else { None };
-                    s.spawn(move || {
+                    std::thread::Builder::new().stack_size(STACK).spawn_scoped(s, move || {
                         let h: &F2 = own.as_ref().unwrap_or(f);
                         start.wait();
                         for m in 0..calls {
@@ -322,7 +336,8 @@ pub fn frame_slots(c: &Case, rep: &mut Report) {
                                 bad.push(json!({"thread": tid, "handle": if tid % 2 == 1 { "cloned" } else { "shared" }, "call": m, "x": x, "rounds": rounds, "got": got, "single_threaded": want}));
                             }
                         }
-                    });
+                    })
+                    .expect("spawn");
                 }
             });
             meet.armed.store(false, Ordering::SeqCst);
